@@ -69,6 +69,14 @@ class InlineIndex:
         self._inl = {}
         self.names = [n.split("::")[-1] for n in no_inline_suffixes()]
         self.name_set = set(self.names)
+        # the reviewed list of anchors (fully qualified); a function that is not on it is never an anchor just
+        # because its short name collides with one
+        self.anchors = None
+        ap = os.path.join(os.path.dirname(os.path.dirname(os.path.abspath(__file__))), "tables", "anchors.json")
+        if os.path.exists(ap):
+            import json
+            with open(ap) as fh:
+                self.anchors = set(json.load(fh)["anchors"])
 
     def user_fn(self, g):
         """the user-level function of a body (the async fn for its coroutine)"""
@@ -84,7 +92,7 @@ class InlineIndex:
         ok = True
         if g.kind not in ("fn", "method") or g.in_testonly():
             ok = False
-        elif g.qname in self.role_names or (g.name in self.name_set):
+        elif g.qname in self.role_names or (g.qname in self.anchors if self.anchors is not None else g.name in self.name_set):
             ok = False
         elif g.reach or g.vis == "pub":
             ok = False
